@@ -346,6 +346,73 @@ class Lane:
                            "transaction read from the store: id differs from sha256d(encoding)", w)
         store.close()
 
+    def lane_c_faulty_store(self, n):
+        """ids of what the store hands back after a flush FAILED half-way (a block whose input refers to an output the store
+        does not hold, an amount beyond the store's integer range) and the store was closed and opened again"""
+        import os
+        import hashlib
+        import skepticoin.datatypes as dt
+        import skepticoin.signing as sg
+        from skepticoin.blockstore import BlockStore
+        rng, g = self.rng, self.g
+
+        def sha256d(b):
+            return hashlib.sha256(hashlib.sha256(b).digest()).digest()
+        path = os.path.join(os.getcwd(), "c07-faulty.db")
+        for k in range(n):
+            for suffix in ("", "-journal"):
+                if os.path.exists(path + suffix):
+                    os.remove(path + suffix)
+            store = nodekit_quiet(BlockStore, path)
+            prev = ref.GENESIS_ID
+            faults = 0
+            for h in range(1, rng.choice([3, 4, 6])):
+                fault = rng.choice([None, None, "missing-referenced-output", "amount-beyond-integer-range"])
+                txs = [dt.Transaction([dt.Input(dt.OutputReference(b"\x00" * 32, 0), sg.CoinbaseData(h, b"c07"))],
+                                      [dt.Output(10 + h, g.public_key(rng)), dt.Output(5, g.public_key(rng))])]
+                for _ in range(rng.choice([1, 2])):
+                    ref_hash = txs[0].hash() if fault != "missing-referenced-output" else objgen.rb(rng, 32)
+                    val = rng.randrange(1, 1 << 40) if fault != "amount-beyond-integer-range" else rng.choice([1 << 63, (1 << 64) - 1])
+                    txs.append(dt.Transaction([dt.Input(dt.OutputReference(ref_hash, len(txs) - 1), g.signature(rng))],
+                                              [dt.Output(val, g.public_key(rng)), dt.Output(7, g.public_key(rng))]))
+                s = g.block_summary(rng)
+                s.previous_block_hash, s.height = prev, h
+                blk = dt.Block(dt.BlockHeader(s, g.pow_evidence(rng)), txs)
+                store.add_block_to_buffer(blk)
+                try:
+                    store.flush_blocks_to_disk()
+                    prev = blk.hash()
+                except Exception:
+                    faults += 1
+                    self.c["C_failed_flushes"] = self.c.get("C_failed_flushes", 0) + 1
+                    store.write_buffer.clear()
+            try:
+                store.close()
+            except Exception:
+                pass
+            store = nodekit_quiet(BlockStore, path)
+            try:
+                blocks = list(store.read_blocks_from_disk())
+            except Exception as e:
+                blocks = []
+                if faults:
+                    self.v("store-unreadable-after-failed-flush", "read_blocks_from_disk raised %r after a failed flush" % (e,),
+                           {"lane": "C-faulty-store", "bytes": ""})
+            for blk in blocks:
+                for t in blk.transactions:
+                    self.c["C_ids_checked"] += 1
+                    self.c["C_ids_after_failed_flush"] = self.c.get("C_ids_after_failed_flush", 0) + 1
+                    enc = t.serialize()
+                    if t.hash() != sha256d(enc):
+                        self.v("id-is-not-hash-of-canonical-encoding:Transaction-from-store-after-failed-flush",
+                               "after a flush that failed half-way and a re-open, the store hands back a transaction whose id is "
+                               "not the double SHA-256 of its encoding (%d inputs, %d outputs)" % (len(t.inputs), len(t.outputs)),
+                               {"lane": "C-faulty-store", "bytes": enc.hex()})
+            store.close()
+        for suffix in ("", "-journal"):
+            if os.path.exists(path + suffix):
+                os.remove(path + suffix)
+
     def lane_d_derived(self, n):
         """objects DERIVED by the repository's own functions from objects that came from bytes (signing a decoded unsigned
         transaction, signing a decoded signed one again, the to-be-signed form of a decoded transaction)"""
@@ -520,6 +587,7 @@ def run_shard(spec):
     lane.lane_a(1500 if quick else 40000)
     lane.lane_b(220 if quick else 6000)
     lane.lane_c_store(40 if quick else 600)
+    lane.lane_c_faulty_store(6 if quick else 80)
     lane.lane_long_lists(2 if quick else 40)
     lane.lane_d_derived(25 if quick else 400)
     lane.lane_e_workload(2 if quick else 40)
@@ -540,7 +608,8 @@ def finalize(m, tier):
                    ("vlq textbook-minimal alternatives offered", c.get("B_by_mutation", {}).get("vlq-minimal", 0), 300),
                    ("textbook-minimal list prefixes offered", c.get("B_minimal_list_prefix", 0), 40),
                    ("ids checked", c.get("C_ids_checked", 0), 5000),
-                   ("ids from store", c.get("C_ids_from_store", 0), 100), ("ids of derived objects", c.get("D_ids_checked", 0), 1000),
+                   ("ids from store", c.get("C_ids_from_store", 0), 100), ("failed flushes", c.get("C_failed_flushes", 0), 40),
+                   ("ids after a failed flush", c.get("C_ids_after_failed_flush", 0), 200), ("ids of derived objects", c.get("D_ids_checked", 0), 1000),
                    ("id requests observed along node-like workloads", c.get("E_id_requests_observed", 0), 5000),
                    ("id_invariant_evaluations", c.get("id_invariant_evaluations", 0), 5000), ("long_lists", c.get("long_lists", 0), 20),
                    ("count-altered strings", c.get("B_by_mutation", {}).get("count-altered", 0), 60)],
